@@ -271,9 +271,9 @@ pub fn gen_op<H: BuildHasher + Default + Clone>(rng: &mut Rng, q: &AnyQ<H>, pf: 
             }
             "iter_mut" => {
                 let n = rng.below(len + 3);
-                let alphabet: &[Call] = if pq { &[Call::F, Call::F, Call::F, Call::H, Call::N(1)] } else { &[Call::F, Call::F, Call::B, Call::B, Call::L, Call::H, Call::N(1), Call::M(1), Call::N(0), Call::M(2)] };
+                let alphabet: &[Call] = if pq { &[Call::F, Call::F, Call::F, Call::F, Call::H, Call::N(1), Call::Z, Call::C] } else { &[Call::F, Call::F, Call::F, Call::B, Call::B, Call::B, Call::L, Call::H, Call::N(1), Call::M(1), Call::N(0), Call::M(2), Call::Z, Call::C] };
                 let prog = (0..n).map(|_| (*rng.pick(alphabet), gen_w(rng, pf))).collect();
-                Op::IterMut { forget: rng.chance(1, 8), prog }
+                Op::IterMut { forget: rng.chance(1, 8), late: false, prog }
             }
             "extend" => {
                 let n = if rng.chance(1, 4) { rng.range(20, 70) } else { rng.below(6) };
@@ -293,7 +293,7 @@ pub fn gen_op<H: BuildHasher + Default + Clone>(rng: &mut Rng, q: &AnyQ<H>, pf: 
             }
             "append" => {
                 let n = if rng.chance(1, 3) { len + rng.below(4) } else { rng.below(6) };
-                Op::Append(gen_pairs(rng, q, pf, n))
+                Op::Append(*rng.pick(&[0u64, 0, 0, 700]), gen_pairs(rng, q, pf, n))
             }
             "convert" => Op::Convert,
             "serde_rt" => Op::SerdeRt(if rng.chance(1, 2) { Kind::Pq } else { Kind::Dpq }),
@@ -304,15 +304,15 @@ pub fn gen_op<H: BuildHasher + Default + Clone>(rng: &mut Rng, q: &AnyQ<H>, pf: 
             "clear" => Op::Clear,
             "drain" => {
                 let n = rng.below(len + 3);
-                Op::Drain { forget: rng.chance(1, 4), calls: gen_calls(rng, n, &[Call::F, Call::F, Call::B, Call::L, Call::H, Call::N(1), Call::M(1), Call::N(0), Call::M(0), Call::N(3)]) }
+                Op::Drain { forget: rng.chance(1, 4), calls: gen_calls(rng, n, &[Call::F, Call::F, Call::F, Call::B, Call::B, Call::L, Call::H, Call::N(1), Call::M(1), Call::N(0), Call::M(0), Call::N(3), Call::Z, Call::C]) }
             }
             "iter" => {
                 let n = rng.below(len + 3);
-                Op::Iter(gen_calls(rng, n, &[Call::F, Call::F, Call::B, Call::L, Call::H, Call::N(1), Call::M(1), Call::N(0), Call::M(0), Call::N(3)]))
+                Op::Iter(gen_calls(rng, n, &[Call::F, Call::F, Call::F, Call::B, Call::B, Call::L, Call::H, Call::N(1), Call::M(1), Call::N(0), Call::M(0), Call::N(3), Call::Z, Call::C]))
             }
             "into_iter" => {
                 let n = rng.below(len + 3);
-                Op::IntoIter(gen_calls(rng, n, &[Call::F, Call::F, Call::B, Call::L, Call::H, Call::N(1), Call::M(1), Call::N(0), Call::M(0), Call::N(3)]))
+                Op::IntoIter(gen_calls(rng, n, &[Call::F, Call::F, Call::F, Call::B, Call::B, Call::L, Call::H, Call::N(1), Call::M(1), Call::N(0), Call::M(0), Call::N(3), Call::Z, Call::C]))
             }
             "into_vec" => Op::IntoVec,
             "sorted_vec" => {
@@ -321,9 +321,9 @@ pub fn gen_op<H: BuildHasher + Default + Clone>(rng: &mut Rng, q: &AnyQ<H>, pf: 
             "sorted_iter" => {
                 let n = rng.below(len + 3);
                 if pq {
-                    Op::IntoSortedIter(gen_calls(rng, n, &[Call::F, Call::F, Call::F, Call::H, Call::N(1), Call::N(0)]))
+                    Op::IntoSortedIter(gen_calls(rng, n, &[Call::F, Call::F, Call::F, Call::F, Call::H, Call::N(1), Call::N(0), Call::Z, Call::C]))
                 } else {
-                    Op::IntoSortedIter(gen_calls(rng, n, &[Call::F, Call::F, Call::B, Call::B, Call::L, Call::H, Call::N(1), Call::M(1), Call::N(0), Call::M(0), Call::N(4), Call::M(5)]))
+                    Op::IntoSortedIter(gen_calls(rng, n, &[Call::F, Call::F, Call::F, Call::B, Call::B, Call::B, Call::L, Call::H, Call::N(1), Call::M(1), Call::N(0), Call::M(0), Call::N(4), Call::M(5), Call::Z, Call::C]))
                 }
             }
             "len" => if rng.chance(1, 2) { Op::Len } else { Op::IsEmpty },
@@ -526,7 +526,7 @@ pub fn bfs_stream<H: BuildHasher + Default + Clone>(sink: &mut Sink, kinds: &[Ki
                 if let Some(l) = prog.last_mut() {
                     l.1 = W { prio: Some(p), payload: None };
                 }
-                ops.push((Op::IterMut { forget: false, prog }, false));
+                ops.push((Op::IterMut { forget: false, late: false, prog }, false));
             }
         }
         for (op, expand) in ops {
@@ -597,8 +597,8 @@ pub fn pattern_stream<H: BuildHasher + Default + Clone>(sink: &mut Sink, kinds: 
 
 /// all call sequences of length `l` over the iterator alphabets, at sizes 0..=maxn, for every iterator type
 pub fn iter_stream<H: BuildHasher + Default + Clone>(sink: &mut Sink, kinds: &[Kind], maxn: u64, l: u32, which: &[&str]) {
-    let full = [Call::F, Call::B, Call::L, Call::H, Call::N(0), Call::N(1), Call::N(2), Call::M(0), Call::M(1), Call::M(3)];
-    let front = [Call::F, Call::H, Call::N(0), Call::N(1), Call::N(3)];
+    let full = [Call::F, Call::B, Call::L, Call::H, Call::N(0), Call::N(1), Call::N(2), Call::M(0), Call::M(1), Call::M(3), Call::Z, Call::C];
+    let front = [Call::F, Call::H, Call::N(0), Call::N(1), Call::N(3), Call::Z, Call::C];
     for kind in kinds {
         for n in 0..=maxn {
             let xs: Vec<E> = (0..n).map(|k| (k, 0, ((k * 7 + 3) % 5) as i64)).collect();
@@ -617,7 +617,7 @@ pub fn iter_stream<H: BuildHasher + Default + Clone>(sink: &mut Sink, kinds: &[K
                             "into_iter" => Op::IntoIter(cs),
                             "drain" => Op::Drain { forget: code % 5 == 4, calls: cs },
                             "sorted_iter" => Op::IntoSortedIter(cs),
-                            "iter_mut" => Op::IterMut { forget: code % 7 == 6, prog: cs.iter().enumerate().map(|(i, c)| (*c, W { prio: if i % 2 == 0 { Some((code % 5) as i64) } else { None }, payload: Some(i as u64 + 1) })).collect() },
+                            "iter_mut" => Op::IterMut { forget: code % 7 == 6, late: false, prog: cs.iter().enumerate().map(|(i, c)| (*c, W { prio: if i % 2 == 0 { Some((code % 5) as i64) } else { None }, payload: Some(i as u64 + 1) })).collect() },
                             _ => unreachable!(),
                         };
                         if sink.full() { return; }
@@ -657,7 +657,7 @@ pub fn bulk_stream<H: BuildHasher + Default + Clone>(sink: &mut Sink, rng: &mut 
             let op = match r.below(10) {
                 0 => Op::FromVec(xs),
                 1 => Op::FromIter { lo, hi, xs },
-                2 => Op::Append(xs),
+                2 => Op::Append(*r.pick(&[0u64, 0, 900]), xs),
                 3 => Op::Convert,
                 4 => Op::Deser(xs),
                 _ => Op::Extend { lo, hi, xs },
@@ -702,9 +702,9 @@ pub fn large_stream<H: BuildHasher + Default + Clone>(sink: &mut Sink, rng: &mut
                     ops.push(Op::Len);
                 }
                 ops.push(Op::RetainMut(vec![Row { key: 1, keep: false, w: W::default() }]));
-                ops.push(Op::IterMut { forget: false, prog: vec![(Call::F, W { prio: Some(3), payload: None })] });
+                ops.push(Op::IterMut { forget: false, late: false, prog: vec![(Call::F, W { prio: Some(3), payload: None })] });
                 ops.push(Op::Convert);
-                ops.push(Op::Append((0..n / 2).map(|k| (n * 2 + k, 0, k as i64)).collect()));
+                ops.push(Op::Append(0, (0..n / 2).map(|k| (n * 2 + k, 0, k as i64)).collect()));
                 for op in ops {
                     if !op.valid_for(q.kind()) { continue; }
                     if !sink.step(&mut q, &op, Lookup::Owned) { break; }
@@ -794,12 +794,12 @@ pub fn crash_stream<H: BuildHasher + Default + Clone>(sink: &mut Sink, rng: &mut
             Op::Remove(anykey(&mut r)),
             Op::RetainMut(present.iter().map(|k| Row { key: *k, keep: k % 3 != 0, w: W { prio: Some((*k as i64 * 7) % 5), payload: None } }).collect()),
             Op::Retain(present.iter().map(|k| Row { key: *k, keep: k % 2 != 0, w: W::default() }).collect()),
-            Op::IterMut { forget: false, prog: (0..len.min(6)).map(|j| (Call::F, W { prio: Some(100 - j as i64), payload: None })).collect() },
-            Op::IterMut { forget: true, prog: (0..len.min(3)).map(|j| (Call::F, W { prio: Some(100 - j as i64), payload: None })).collect() },
+            Op::IterMut { forget: false, late: false, prog: (0..len.min(6)).map(|j| (Call::F, W { prio: Some(100 - j as i64), payload: None })).collect() },
+            Op::IterMut { forget: true, late: false, prog: (0..len.min(3)).map(|j| (Call::F, W { prio: Some(100 - j as i64), payload: None })).collect() },
             Op::Drain { forget: true, calls: vec![Call::F] },
             Op::Extend { lo: nb, hi: Some(nb), xs: big.clone() }, Op::Extend { lo: 0, hi: None, xs: big.clone() },
             Op::Extend { lo: ns, hi: Some(ns), xs: small.clone() },
-            Op::FromVec(big.clone()), Op::FromIter { lo: nb, hi: Some(nb), xs: big.clone() }, Op::Append(small.clone()), Op::Append(big.clone()),
+            Op::FromVec(big.clone()), Op::FromIter { lo: nb, hi: Some(nb), xs: big.clone() }, Op::Append(0, small.clone()), Op::Append(300, big.clone()),
             Op::Convert, Op::SerdeRt(kind.other()),
         ];
         if pq {
@@ -907,10 +907,10 @@ pub fn crash_mirror_stream<H: BuildHasher + Default + Clone>(sink: &mut Sink, rn
             Op::ChangePriority(anykey(&mut r), ext(&mut r)), Op::ChangePriorityBy(anykey(&mut r), ext(&mut r)),
             Op::Remove(anykey(&mut r)),
             Op::RetainMut(present.iter().map(|k| Row { key: *k, keep: k % 3 != 0, w: W { prio: Some((*k as i64 * 7) % 5), payload: None } }).collect()),
-            Op::IterMut { forget: false, prog: (0..len.min(6)).map(|j| (Call::F, W { prio: Some(100 - j as i64), payload: None })).collect() },
+            Op::IterMut { forget: false, late: false, prog: (0..len.min(6)).map(|j| (Call::F, W { prio: Some(100 - j as i64), payload: None })).collect() },
             Op::Extend { lo: nb, hi: Some(nb), xs: big.clone() }, Op::Extend { lo: 0, hi: None, xs: big.clone() },
             Op::Extend { lo: ns, hi: Some(ns), xs: small.clone() },
-            Op::FromVec(big.clone()), Op::FromIter { lo: nb, hi: Some(nb), xs: big.clone() }, Op::Append(small.clone()), Op::Append(big.clone()),
+            Op::FromVec(big.clone()), Op::FromIter { lo: nb, hi: Some(nb), xs: big.clone() }, Op::Append(0, small.clone()), Op::Append(300, big.clone()),
         ];
         if pq {
             cands.extend([Op::Pop, Op::PopIf(0, w, true), Op::PopIf(0, w, false)]);
